@@ -7,7 +7,8 @@
    assignment of OS threads to workers [roles], every schedule and every oracle (= every
    program, every interleaving, every queue discipline). *)
 From Coq Require Import List ZArith Lia.
-From Pika Require Import Base.Conc Model.Placement Proofs.PlacementProofs.
+From Pika Require Import Base.Conc Model.Placement Proofs.PlacementProofs Model.BulkPlacement Proofs.BulkPlacementProofs.
+From Pika Require Model.Bulk Model.IndexQueue.
 Import ListNotations.
 
 (* submit_never_inline, step form: whatever thread t does in one atomic step, either no enter
@@ -149,3 +150,154 @@ Example C10_example :
   In (ESubmit 0 1 PNormal (HThread 5) 10) (glog g) /\ hint_num (HThread 5) = Some 5%Z /\
   Z.to_nat (5 mod Z.of_nat (pW (ex_cfg 1))) = 2.
 Proof. vm_compute. repeat split; try discriminate; try lia; intuition. Qed.
+
+(* ================================================================== C10 <-> C11: bulk placement
+   Model/BulkPlacement.v: bulk_receiver::set_value / do_work_task / do_work_local of
+   thread_pool_scheduler_bulk.hpp as a layer over the placement model: [bk_run] performs Placement
+   steps only ([pl_tstep]); its ghost state records in which task set_value ran ([bk_sv] = task a0,
+   thread t0, local worker number lw), the tasks registered by the spawn loop with their queue number
+   ([bk_tasks]) and every invocation of f ([bk_calls]: index, worker_thread k of the calling
+   task_function, Placement task, OS thread).  Quantified over every pool configuration, every role
+   assignment, every bulk parameter set (pool, priority, scheduler hint, shape) and every schedule
+   and oracle: all interleavings of the spawn loop with the workers, all chunk-to-task assignments
+   (the index-queue stealing of C11 is left to the oracle), arbitrary other activity. *)
+
+(* bulk_runs_on_pool.  Every invocation f(i) happens inside a pika task, on the OS thread of the
+   worker (pw,w) that entered that task, and is one of
+   (spawned) called by task_function{k} running as a task that the spawn loop registered (ESubmit by
+      the thread t0 that ran set_value) on the scheduler's pool with priority get_priority(scheduler)
+      and hint [bulk_task_hint (scheduler hint) k] (= k when the scheduler has no hint), for a k that is
+      not the local worker number and whose queue is non-empty; that task is not the task in which
+      set_value ran (never inline in set_value, hence never inline in start()), and pw = the
+      scheduler's pool;
+   (local) called by task_function{lw} INLINE in the task a0 in which set_value ran, lw = the local
+      worker number that task had when set_value ran.  This is a task of the scheduler's pool
+      exactly when the predecessor completed in a task of that pool (what its advertised completion
+      scheduler promises: schedule / schedule_from / continues_on / transfer_just senders of that
+      scheduler, and then / bulk / unpack / drop_value which forward it and complete inline).  The
+      code does not re-check it (PIKA_ASSERT(get_self_id()) only): see C10_bulk_foreign_predecessor_example. *)
+Theorem C10_bulk_runs_on_pool : forall cfg bp roles sched,
+  let g := bk_g cfg bp roles sched in
+  let b := bk_b cfg bp roles sched in
+  forall fc, In fc (bk_calls b) ->
+  exists a0 t0 lw pw w ph,
+    bk_sv b = Some (a0, t0, lw) /\
+    roles (fc_thr fc) = RWorker pw w /\ In (EEnter (fc_task fc) ph pw w (fc_thr fc)) (glog g) /\
+    ((fc_task fc <> a0 /\ pw = bp_pool bp /\ fc_k fc <> lw /\ fc_k fc < pW (cfg (bp_pool bp)) /\
+      part_nonempty (pW (cfg (bp_pool bp))) (bp_n bp) (fc_k fc) = true /\
+      In (ESubmit (fc_task fc) (bp_pool bp) (bp_prio bp) (bulk_task_hint (bp_hint bp) (fc_k fc)) t0) (glog g)) \/
+     (fc_task fc = a0 /\ fc_k fc = lw /\
+      forall pr0 h0 t00, In (ESubmit a0 (bp_pool bp) pr0 h0 t00) (glog g) -> pw = bp_pool bp)).
+Proof. exact bulk_runs_on_pool_lemma. Qed.
+Print Assumptions C10_bulk_runs_on_pool.
+
+(* f is never invoked by an external (non-worker) OS thread: not by the thread that called start() /
+   sync_wait, not by a thread that merely completed an upstream `just` *)
+Theorem C10_bulk_never_external : forall cfg bp roles sched fc,
+  In fc (bk_calls (bk_b cfg bp roles sched)) -> roles (fc_thr fc) <> RExt.
+Proof. exact bulk_never_external_lemma. Qed.
+Print Assumptions C10_bulk_never_external.
+
+(* static (non-stealing) policy, hypotheses of C10_static_hint_pinned: the spawned task_function{k}
+   runs on worker  size_t(hint_k) mod W  with hint_k = k, or the scheduler's own hint if it has one *)
+Theorem C10_bulk_static_spawned_worker : forall cfg bp roles sched fc a0 t0 lw u pw w,
+  let g := bk_g cfg bp roles sched in
+  let b := bk_b cfg bp roles sched in
+  In fc (bk_calls b) -> bk_sv b = Some (a0, t0, lw) -> fc_task fc <> a0 ->
+  static_ok (cfg (bp_pool bp)) -> (pPrio (cfg (bp_pool bp)) = false \/ bp_prio bp <> PLow) ->
+  (forall t', ~ In (EYieldTo (fc_task fc) t') (glog g)) ->
+  hint_num (bulk_task_hint (bp_hint bp) (fc_k fc)) = Some u ->
+  roles (fc_thr fc) = RWorker pw w ->
+  pw = bp_pool bp /\ w = Z.to_nat (u mod Z.of_nat (pW (cfg (bp_pool bp)))).
+Proof. exact bulk_static_spawned_lemma. Qed.
+Print Assumptions C10_bulk_static_spawned_worker.
+
+(* ... in particular, scheduler without a hint: worker task k runs on worker k of the pool
+   (this code base has no first_thread offset: (0 + k) mod W = k since k < W) *)
+Theorem C10_bulk_static_unhinted_worker : forall cfg bp roles sched fc a0 t0 lw pw w,
+  let g := bk_g cfg bp roles sched in
+  let b := bk_b cfg bp roles sched in
+  In fc (bk_calls b) -> bk_sv b = Some (a0, t0, lw) -> fc_task fc <> a0 ->
+  static_ok (cfg (bp_pool bp)) -> (pPrio (cfg (bp_pool bp)) = false \/ bp_prio bp <> PLow) ->
+  (forall t', ~ In (EYieldTo (fc_task fc) t') (glog g)) ->
+  bp_hint bp = HNone ->
+  roles (fc_thr fc) = RWorker pw w ->
+  pw = bp_pool bp /\ w = fc_k fc.
+Proof. exact bulk_static_unhinted_lemma. Qed.
+Print Assumptions C10_bulk_static_unhinted_worker.
+
+(* static policy, local part: when the task in which set_value ran was created on the scheduler's
+   pool, task_function{lw} runs on worker lw of that pool in every phase (also after f yields) *)
+Theorem C10_bulk_static_local_worker : forall cfg bp roles sched fc a0 t0 lw pr0 h0 t00 pw w,
+  let g := bk_g cfg bp roles sched in
+  let b := bk_b cfg bp roles sched in
+  In fc (bk_calls b) -> bk_sv b = Some (a0, t0, lw) -> fc_task fc = a0 ->
+  In (ESubmit a0 (bp_pool bp) pr0 h0 t00) (glog g) ->
+  static_ok (cfg (bp_pool bp)) -> (pPrio (cfg (bp_pool bp)) = false \/ pr0 <> PLow) ->
+  (forall t', ~ In (EYieldTo a0 t') (glog g)) ->
+  roles (fc_thr fc) = RWorker pw w ->
+  pw = bp_pool bp /\ w = lw /\ fc_k fc = lw.
+Proof. exact bulk_static_local_lemma. Qed.
+Print Assumptions C10_bulk_static_local_worker.
+
+(* the acceptor that the harness evaluates on every observed (k, pool, worker) of a real bulk run
+   admits everything the model can do (predecessor completing on the scheduler's pool, no yield_to) *)
+Theorem C10_bulk_allowed_sound : forall cfg bp roles sched fc a0 t0 lw pr0 h0 t00 pw w,
+  let g := bk_g cfg bp roles sched in
+  let b := bk_b cfg bp roles sched in
+  In fc (bk_calls b) -> bk_sv b = Some (a0, t0, lw) ->
+  In (ESubmit a0 (bp_pool bp) pr0 h0 t00) (glog g) ->
+  (forall a t', ~ In (EYieldTo a t') (glog g)) ->
+  roles (fc_thr fc) = RWorker pw w ->
+  bulk_allowed cfg bp pr0 lw (fc_k fc) pw w = true.
+Proof. exact bulk_allowed_sound_lemma. Qed.
+Print Assumptions C10_bulk_allowed_sound.
+
+(* [part_nonempty] is the `queue.empty()` test of the spawn loop in the C11 model (Model/Bulk.v, BSpawn) *)
+Theorem C10_bulk_queue_test_is_C11 : forall W n k c,
+  Bulk.get_chunk_size (N.of_nat W) n = Some c ->
+  let nc := Bulk.get_num_chunks n c in
+  part_nonempty W n k =
+  negb (IndexQueue.range_empty (IndexQueue.cur
+         (IndexQueue.iq_init (Bulk.part_begin (N.of_nat W) (N.of_nat k) nc) (Bulk.part_end (N.of_nat W) (N.of_nat k) nc)))).
+Proof. exact part_nonempty_is_queue_test. Qed.
+Print Assumptions C10_bulk_queue_test_is_C11.
+
+(* non-vacuity.  ex_cfg: pool 1 = static, 3 workers (OS threads 2,3,4).  External thread 10 starts
+   `schedule(with_hint(s1, 1)) | bulk(3, f)`: task 0 on worker 1 (thread 3) runs set_value (lw = 1), the
+   spawn loop registers task 1 (queue 0) and task 2 (queue 2); each task_function calls f once, the
+   local one inline in task 0. *)
+Definition exb_bp : bulk_par := {| bp_pool := 1; bp_prio := PNormal; bp_hint := HNone; bp_n := 3 |}.
+Definition exb_sched : list (nat * boracle) :=
+  [ (10, BO (OAct (ASpawn 1 PNormal (HThread 1))));
+    (3, BO (OPop SrcOwnN 0)); (3, BSetValue); (3, BF 1);            (* f before the loop is over: refused *)
+    (3, BLoop); (3, BLoop); (3, BLoop);
+    (2, BO (OPop SrcOwnN 0)); (4, BO (OPop SrcOwnN 0));
+    (4, BF 2); (3, BF 1); (2, BF 0); (10, BF 0);                    (* external thread: refused *)
+    (2, BO (OAct AEnd)); (3, BO (OAct AEnd)); (4, BO (OAct AEnd)) ].
+Example C10_bulk_example :
+  let b := bk_b ex_cfg exb_bp ex_roles exb_sched in
+  bk_sv b = Some (0, 3, 1) /\ rev (bk_tasks b) = [(1, 0); (2, 2)] /\
+  rev (bk_calls b) = [ {| fc_i := 2; fc_k := 2; fc_task := 2; fc_thr := 4 |};
+                       {| fc_i := 1; fc_k := 1; fc_task := 0; fc_thr := 3 |};
+                       {| fc_i := 0; fc_k := 0; fc_task := 1; fc_thr := 2 |} ] /\
+  static_ok (ex_cfg 1) /\
+  map (fun k => part_nonempty 3 3 k) [0; 1; 2] = [true; true; true] /\
+  map (fun k => part_nonempty 3 1 k) [0; 1; 2] = [false; false; true] /\     (* bulk(1, f): only queue 2 gets a task *)
+  map (fun k => bulk_allowed ex_cfg exb_bp PNormal 1 k 1 k) [0; 1; 2] = [true; true; true] /\
+  bulk_allowed ex_cfg exb_bp PNormal 1 0 1 2 = false /\ bulk_allowed ex_cfg exb_bp PNormal 1 0 0 0 = false.
+Proof. vm_compute. repeat split; try discriminate; try lia; intuition. Qed.
+
+(* the hypothesis "set_value runs in a task of the scheduler's pool" is needed: if a sender advertises
+   pool 1's scheduler as completion scheduler but completes in a task of pool 0 (worker 1, thread 1),
+   set_value reads local_worker_thread = 1, skips queue 1 in the spawn loop and calls f inline on pool 0.
+   Not reachable with pika's own senders (see the comment of C10_bulk_runs_on_pool); a user-defined
+   sender with a wrong get_completion_scheduler would do it. *)
+Definition exf_sched : list (nat * boracle) :=
+  [ (10, BO (OAct (ASpawn 0 PNormal (HThread 1))));
+    (1, BO (OPop SrcOwnN 0)); (1, BSetValue); (1, BLoop); (1, BLoop); (1, BLoop); (1, BF 1) ].
+Example C10_bulk_foreign_predecessor_example :
+  let b := bk_b ex_cfg exb_bp ex_roles exf_sched in
+  bk_sv b = Some (0, 1, 1) /\ bk_calls b = [ {| fc_i := 1; fc_k := 1; fc_task := 0; fc_thr := 1 |} ] /\
+  ex_roles 1 = RWorker 0 1 /\ bp_pool exb_bp = 1.
+Proof. vm_compute. repeat split. Qed.
